@@ -296,9 +296,10 @@ PROPS = {
                 "sequence the model shows, after every operation, exactly what the abstract specification shows (result, listing, lookup of every name, version) - lookup = the stored rule of that name, a duplicate refused "
                 "without effect, listing = every stored rule once by salience descending and insertion order among equals (a strict total order; the code's stable sort of an already sorted vector plus one element is an insertion). "
                 "Linearizability of concurrent histories against that specification is the Coq-defined checker KB.lin evaluated on the real KnowledgeBase under perturbed schedules (a monitor, not a theorem: the interleavings are "
-                "produced by the real threads).",
+                "produced by the real threads). The checker itself is proved correct (Proofs/KBLinProofs.v, C15_lin_checker_decides): with the fuel the monitor passes, lin answers true exactly when the observed events "
+                "have a real-time-respecting permutation on which the sequential specification returns every observed result - an accepted run is linearizable and a linearizable run is never reported.",
         "level_note": "Trusted: Coq kernel; model of knowledge_base.rs (method bodies atomic because every method takes all its locks first and holds them to the end - checked syntactically by consts.py); "
-                "std RwLock mutual exclusion; OS scheduler only sampled (partial: thread runtime). Refinement model=spec is checked by the monitor, not yet a theorem. Axioms: none.",
+                "std RwLock mutual exclusion; OS scheduler only sampled (partial: thread runtime). Axioms: none.",
         "trusted_base": ["std::sync::RwLock provides mutual exclusion; Vec::sort_by_key is a stable sort"],
         "assumptions": ["rules are identified by a tag stored in Rule.description"],
     },
